@@ -18,6 +18,7 @@ import PurlModel.Lemmas.QualOrder
 import PurlModel.Lemmas.NormPaths
 import PurlModel.Lemmas.PctSpelling
 import PurlModel.Lemmas.Spells
+import PurlModel.Lemmas.PctComplete
 import PurlModel.Lemmas.RustUnicode
 namespace Purl.C02
 open Purl Purl.Generated
@@ -266,6 +267,39 @@ example : SubSp [['x']] [['.'], ['x']] :=
 escapes with either hex case, in any mixture -/
 theorem pct_spelling_decodes (s w : Str) (h : PctSp s w) : decode w = .ok s :=
   Purl.pct_spelling_decodes s w h
+
+/-- THE DECODER, EXACTLY: a written component `w` decodes to `s` if and only if `w` spells `s` char by
+char — each char raw, or ALL its UTF-8 bytes as `%XY` escapes (either hex case per digit), or a '%' that is
+followed by no two hex digits and stands for itself (`PctSpx`, Lemmas/PctComplete.lean).  ⇐ is the
+freedom of spelling, ⇒ says there is no other way to obtain `s`: in particular a char can never be split
+between raw bytes and escapes, and nothing but these spellings decodes at all. -/
+theorem component_decodes_iff (w s : Str) : decode w = .ok s ↔ PctSpx s w := decode_ok_iff w s
+
+/-- two written components denote the same value exactly when they spell the same string -/
+theorem same_component_iff (w₁ w₂ s : Str) (h₁ : decode w₁ = .ok s) :
+    decode w₂ = .ok s ↔ PctSpx s w₂ := decode_ok_iff w₂ s
+
+/-- what does not spell anything is refused with InvalidEscape (and only that) -/
+theorem undecodable_iff (w : Str) : decode w = .error .invalidEscape ↔ ¬ ∃ s, PctSpx s w := by
+  constructor
+  · rintro h ⟨s, hs⟩
+    rw [pctSpx_decodes s w hs] at h
+    cases h
+  · intro h
+    unfold decode
+    cases hd : utf8Dec? (pctDecode (utf8 w)) with
+    | none => rfl
+    | some t =>
+      exfalso
+      apply h
+      refine ⟨t, decodes_pctSpx ?_⟩
+      unfold decode
+      rw [hd]
+
+/-- non-vacuity: `%41b%c3%A9%zz%` spells `Abé%zz%` (escape, raw, two-byte char escaped in mixed hex case,
+a '%' before non-hex, a trailing '%') — and `%c3x` spells nothing -/
+example : decode "%41b%c3%A9%zz%".toList = .ok "Abé%zz%".toList := by decide
+example : decode "%c3x".toList = .error .invalidEscape := by decide
 
 /-! ### extra slashes, raw dot segments -/
 
